@@ -417,6 +417,108 @@ fn probe_transfer(handle: u32) -> Transfer {
     }
 }
 
+// ------------------------------------------------------------------------------------ the protocol header
+/// The 8-byte protocol header is part of the byte stream too: the library reads it through the same socket and
+/// the statement quantifies over chunk boundaries inside it.  A real client (`open_with_stream`) and a real
+/// listener (`accept`, without and with a SASL layer) get the peer's header - and everything behind it - in
+/// reads of the given shape; the handshake has to succeed exactly as with whole reads.
+async fn header_scenario(listener: bool, sasl: bool, chunk: Chunking) -> Vec<(String, String)> {
+    use fe2o3_amqp::acceptor::{ConnectionAcceptor, SaslPlainMechanism};
+    use fe2o3_amqp::Connection;
+    use vlib::peer::{drive, settle, Auto, Body, Dirn, Peer, AMQP_HEADER, SASL_HEADER};
+    let what = format!("{} reads the peer's {} header as {:?}", if listener { "listener" } else { "client" }, if sasl { "SASL" } else { "AMQP" }, chunk);
+    let mut f = vec![];
+    let (pipe, a, _b) = Pipe::new();
+    pipe.set_read_chunking(1, chunk);
+    let h = crate::scen::H;
+    if !listener {
+        let mut peer = Peer::new(pipe.clone(), 1, Auto::default());
+        match drive(&mut peer, Connection::builder().container_id("lib").open_with_stream(a), h).await {
+            Some(Ok(mut c)) => match drive(&mut peer, c.close(), h).await {
+                Some(Ok(())) => {}
+                other => f.push(("header-chunking: close failed".into(), format!("{what}: close() -> {:?}", other.map(|r| r.map_err(|e| e.to_string()))))),
+            },
+            Some(Err(e)) => f.push(("header-chunking: open failed".into(), format!("{what}: open_with_stream -> {e}"))),
+            None => f.push(("header-chunking: open hangs".into(), format!("{what}: open_with_stream still pending after {h:?}"))),
+        }
+    } else if !sasl {
+        let mut auto = Auto::none();
+        auto.close = true;
+        let mut peer = Peer::new(pipe.clone(), 1, auto);
+        peer.send_proto_header(AMQP_HEADER);
+        let (o, _, _) = typed::gen_open(0, false);
+        peer.send(0, Performative::Open(o));
+        let acceptor = ConnectionAcceptor::new("lib-listener");
+        match drive(&mut peer, acceptor.accept(a), h).await {
+            Some(Ok(mut c)) => match drive(&mut peer, c.close(), h).await {
+                Some(Ok(())) => {}
+                other => f.push(("header-chunking: close failed".into(), format!("{what}: close() -> {:?}", other.map(|r| r.map_err(|e| e.to_string()))))),
+            },
+            Some(Err(e)) => f.push(("header-chunking: accept failed".into(), format!("{what}: accept -> {e}"))),
+            None => f.push(("header-chunking: accept hangs".into(), format!("{what}: accept still pending after {h:?}"))),
+        }
+    } else {
+        let mut peer = Peer::new(pipe.clone(), 1, Auto::none());
+        peer.send_proto_header(SASL_HEADER);
+        let acceptor = ConnectionAcceptor::builder().container_id("lib-listener").sasl_acceptor(SaslPlainMechanism::new("user", "secret")).build();
+        let fut = acceptor.accept(a);
+        tokio::pin!(fut);
+        let early = tokio::select! { biased; r = &mut fut => Some(r.map(|_| ()).map_err(|e| e.to_string())), _ = settle(&mut peer, 5) => None };
+        // the listener answers with its own SASL header (and then offers its mechanisms); accept() keeps waiting
+        let answered = peer.trace.iter().any(|w| w.dir == Dirn::FromLib && matches!(&w.body, Body::ProtoHeader(hd) if *hd == SASL_HEADER));
+        if let Some(r) = early {
+            f.push(("header-chunking: accept ended".into(), format!("{what}: accept returned {r:?} right after the client's SASL header")));
+        } else if !answered {
+            f.push(("header-chunking: header not answered".into(), format!("{what}: the listener did not answer the client's SASL header with its own; it wrote {:?}", vlib::peer::trace_to_strings(&peer.trace))));
+        }
+    }
+    f
+}
+
+fn header_cases() -> Vec<(bool, bool, Chunking)> {
+    let mut v = vec![];
+    for (listener, sasl) in [(false, false), (true, false), (true, true)] {
+        v.push((listener, sasl, Chunking::Whole));
+        for k in 1..=9usize {
+            v.push((listener, sasl, Chunking::Fixed(k)));
+        }
+        // every position of the first read boundary inside the header, and every pair of boundaries
+        for k in 1..=7usize {
+            v.push((listener, sasl, Chunking::Script(VecDeque::from(vec![k]))));
+            for j in 1..(8 - k) {
+                v.push((listener, sasl, Chunking::Script(VecDeque::from(vec![k, j]))));
+            }
+        }
+    }
+    v
+}
+
+fn header_stage(out: &mut Outcome) -> u64 {
+    use vlib::runner::{run_exec, RunCfg, Scenario};
+    let cases = header_cases();
+    for (listener, sasl, chunk) in &cases {
+        let (l, s2, c) = (*listener, *sasl, chunk.clone());
+        let scen: Scenario<Vec<(String, String)>> = std::sync::Arc::new(move || Box::pin(header_scenario(l, s2, c.clone())));
+        let ex = run_exec(vec![], &RunCfg::none(), &scen);
+        match ex.out {
+            Some(fs) => {
+                for (sig, d) in fs {
+                    out.violation(sig, d, json!({"kind": "header", "listener": listener, "sasl": sasl, "chunk": format!("{:?}", chunk)}));
+                }
+            }
+            None => {
+                let lib: Vec<&String> = ex.panics.iter().filter(|p| !p.contains("vcheck/src")).collect();
+                if lib.is_empty() {
+                    out.machinery_errors.push(format!("header scenario ({listener},{sasl},{chunk:?}) died: {:?}", ex.panics));
+                } else {
+                    out.violation("header-chunking: panic".to_string(), format!("listener={listener} sasl={sasl} {chunk:?}: {lib:?}"), json!({"kind": "header", "listener": listener, "sasl": sasl, "chunk": format!("{:?}", chunk)}));
+                }
+            }
+        }
+    }
+    cases.len() as u64
+}
+
 pub const NEGOTIATED: [(u32, u32); 7] = [(512, 512), (512, 4096), (4096, 512), (1024, 512), (512, 1024), (4096, 1024), (65536, 600)];
 
 fn negotiated(out: &mut Outcome) -> u64 {
@@ -629,12 +731,14 @@ pub fn run(ctx: &Ctx) -> Outcome {
     // the library's own writes read back by the library under 1-byte reads: a few multi-frame transfers
     let n_neg = negotiated(&mut out);
     out.set("negotiated_pairs", n_neg);
-    out.set("evaluations", n_write + n_read + wcases.len() as u64 * 4 + 1 + n_neg);
+    let n_hdr = header_stage(&mut out);
+    out.set("header_read_partitions", n_hdr);
+    out.set("evaluations", n_write + n_read + wcases.len() as u64 * 4 + 1 + n_neg + n_hdr);
     out.set("write_cases", n_write);
     out.set("multi_frame_writes", *multi.lock().unwrap());
     out.set("read_partitions", n_read);
     out.set("distinct_nontrivial", distinct.into_inner().unwrap().len() as u64);
-    out.set("rule", "write: every performative kind x 3 channels x 4 field subsets, empty frame, transfers with every payload length 0..3m+16 (m=512) / +-40 around each multiple of the frame body (other m) x tag lengths x field subsets, pre-split (more=true) inputs, through the real Transport at each max-frame-size; stream parsed by the independent frame parser and judged (complete frames, size <= m, header, performative fields vs spec expectation, more flags, payload concatenation); oversized open; write chunking. read: a reference-encoded stream of all performative kinds (narrowest and widest encodings), empty frames and transfers with payload read through the real Transport under every uniform chunk size, every single split offset and every pair of split offsets in the first 12 bytes; result compared with whole reads. negotiated: a real client connection announcing max-frame-size L against a scripted peer announcing R for 7 (L,R) pairs: every frame the library writes is <= R, and a transfer frame of exactly L bytes from the peer is accepted. distinct = distinct byte streams written");
+    out.set("rule", "write: every performative kind x 3 channels x 4 field subsets, empty frame, transfers with every payload length 0..3m+16 (m=512) / +-40 around each multiple of the frame body (other m) x tag lengths x field subsets, pre-split (more=true) inputs, through the real Transport at each max-frame-size; stream parsed by the independent frame parser and judged (complete frames, size <= m, header, performative fields vs spec expectation, more flags, payload concatenation); oversized open; write chunking. read: a reference-encoded stream of all performative kinds (narrowest and widest encodings), empty frames and transfers with payload read through the real Transport under every uniform chunk size, every single split offset and every pair of split offsets in the first 12 bytes; result compared with whole reads. negotiated: a real client connection announcing max-frame-size L against a scripted peer announcing R for 7 (L,R) pairs: every frame the library writes is <= R, and a transfer frame of exactly L bytes from the peer is accepted. header: a real client, a real listener and a real listener with a SASL layer read the peer's 8-byte protocol header (and what follows) in reads of k bytes (k=1..9), with one and with two read boundaries at every position inside the header: the handshake succeeds as with whole reads. distinct = distinct byte streams written");
     out.set("exhaustive", true);
     out.set("bound", format!("max-frame-sizes {:?}", ms));
     out.set(
